@@ -225,6 +225,17 @@ fn parse_watch(v: Option<&Value>) -> Vec<(u32, u32)> {
     out
 }
 
+/// {"device": "pce500"|"jp"}: the machine as a front end puts it together — DeviceModel::configure_runtime (LCD kind,
+/// keyboard polarity, ROM window from an image file, read-only map, SIO ROM stub)
+fn configure_device(rt: &mut CoreRuntime, cfg: &Value) -> Result<(), String> {
+    if let Some(dev) = cfg.get("device").and_then(|x| x.as_str()) {
+        let model = if dev == "jp" { sc62015_core::DeviceModel::PcE500Jp } else { sc62015_core::DeviceModel::PcE500 };
+        let rom = vec![0u8; 0x40000];
+        model.configure_runtime(rt, &rom).map_err(|e| format!("{e}"))?;
+    }
+    Ok(())
+}
+
 /// RAM-expansion overlays named in a configuration object: {"expand": [[start, size, name], ...]}
 fn add_expansions(rt: &mut CoreRuntime, cfg: &Value) -> Result<(), String> {
     if let Some(list) = cfg.get("expand").and_then(|x| x.as_array()) {
@@ -251,13 +262,7 @@ fn machine(host: &mut Host, name: &str, op: &Value) -> Result<Option<Value>, Str
                 if cfg.get("pce500_map").and_then(|x| x.as_bool()) == Some(true) {
                     sc62015_core::pce500::configure_pce500_memory_map(&mut rt.memory);
                 }
-                if let Some(dev) = cfg.get("device").and_then(|x| x.as_str()) {
-                    // the machine as a front end puts it together: DeviceModel::configure_runtime (LCD kind, keyboard
-                    // polarity, ROM window from an image file, read-only map, SIO ROM stub)
-                    let model = if dev == "jp" { sc62015_core::DeviceModel::PcE500Jp } else { sc62015_core::DeviceModel::PcE500 };
-                    let rom = vec![0u8; 0x40000];
-                    model.configure_runtime(&mut rt, &rom).map_err(|e| format!("{e}"))?;
-                }
+                configure_device(&mut rt, cfg)?;
                 add_expansions(&mut rt, cfg)?;
             }
             host.machines.insert(slot, rt);
@@ -451,6 +456,7 @@ fn machine(host: &mut Host, name: &str, op: &Value) -> Result<Option<Value>, Str
                     fresh.add_rom_overlay(addr, &data, &nm);
                 }
             }
+            configure_device(&mut fresh, &cfg)?;
             add_expansions(&mut fresh, &cfg)?;
             let res = fresh.load_snapshot(std::path::Path::new(&path));
             let _ = std::fs::remove_file(&path);
